@@ -82,3 +82,34 @@ for _tag, _heading, _value, _clause, _exc in (
         raises=({_exc: "True"} if _exc else {}), raises_props=["C16", "C18"],
         ensures=([("C16.the_cell_goes_to_the_field_its_heading_names_and_nowhere_else", _clause)] if _clause else []),
         defined_props=["C16", "C18"])
+
+
+# ---- the targeting sheet, one program row (body of the loop over rows in ProgramSet._read_targeting): the program targets exactly the populations and
+# compartments whose cells hold a `y` (any case, blanks around it allowed), mapped from labels to code names; the name "all" is refused
+def _env_target_row(marks, short_name="prog"):
+    def make(it):
+        from pyvc.interp import PyObjV
+        from pyvc.core import Opaque
+        from pyvc import source
+
+        pm = source.load("programs")
+        cell = lambda v: PyObjV("Cell", pm, {"value": v})
+        row = [cell(" %s " % short_name), cell(" A program ")] + [cell(m) for m in marks]
+        self = PyObjV("ProgramSet", pm, {"name": "ps", "programs": {}})
+        return {"self": self, "row": row, "pop_start_idx": 2, "comp_start_idx": 4, "headers": ["abbreviation", "display name", "adults", "children", "susceptible", "infected"],
+                "pop_idx": {2: "adults", 3: "children"}, "comp_idx": {4: "susceptible", 5: "infected"}, "pop_codenames": {"adults": "ad", "children": "ch"}, "comp_codenames": {"susceptible": "sus", "infected": "inf"},
+                "framework": Opaque("framework")}
+
+    return make
+
+
+_tr_stubs = {"sc.isstring": (lambda it, v: isinstance(v, str)), "sc.now": (lambda it, *a, **k: "now")}
+for _tag, _marks, _pops, _comps in (("some_targets", ("Y", None, " y ", "n"), ["ad"], ["sus"]), ("all_targets", ("y", "Y", "y", "Y"), ["ad", "ch"], ["sus", "inf"]), ("no_targets", (None, "N", "", 1), [], [])):
+    CONTRACTS["programs:ProgramSet._read_targeting#row_%s" % _tag] = dict(
+        schema=schema, fragment={"iter": "tables[0][2:]"}, make_env=_env_target_row(_marks), call_stubs=_tr_stubs, concrete_new=["Program", "TimeSeries"],
+        ensures=[("C16.the_program_targets_exactly_the_marked_populations_and_compartments", "self.programs['prog'].target_pops == %r and self.programs['prog'].target_comps == %r" % (_pops, _comps)),
+                 ("C16.the_program_is_stored_under_its_stripped_code_name_with_its_label", "len(self.programs) == 1 and self.programs['prog'].name == 'prog' and self.programs['prog'].label == 'A program'")],
+        defined_props=["C16"])
+CONTRACTS["programs:ProgramSet._read_targeting#row_named_all"] = dict(
+    schema=schema, fragment={"iter": "tables[0][2:]"}, make_env=_env_target_row(("y", None, "y", None), short_name="All"), call_stubs=_tr_stubs, concrete_new=["Program", "TimeSeries"],
+    raises={"Exception": "True"}, raises_props=["C18"], ensures=[], defined_props=["C16", "C18"])
